@@ -155,7 +155,8 @@ fn raw_of(ty: &str, k: i64) -> Value {
 }
 
 /// An array description. `special` allows NaN / -0.0 / inf bit patterns in float64 arrays.
-fn gen_arr(r: &mut Rng, ty: &str, len: usize, special: bool) -> Value {
+fn gen_arr(r: &mut Rng, ty: &str, len: usize, special: bool) -> Value { gen_arr2(r, ty, len, special, false) }
+fn gen_arr2(r: &mut Rng, ty: &str, len: usize, special: bool, nonull: bool) -> Value {
     let shape = r.below(5); // 0 constant, 1 runs, 2 random small, 3 few-unique, 4 random wide
     let base = r.range(-3, 3);
     let mut vals: Vec<i64> = Vec::with_capacity(len);
@@ -170,7 +171,7 @@ fn gen_arr(r: &mut Rng, ty: &str, len: usize, special: bool) -> Value {
         };
         vals.push(v);
     }
-    let nullp = r.below(6); // 0,1 none; 2 all; 3 sparse; 4 half; 5 exactly one
+    let nullp = if nonull { 0 } else { r.below(6) }; // 0,1 none; 2 all; 3 sparse; 4 half; 5 exactly one
     let one = r.below(len.max(1) as u64) as usize;
     let raw_mode = r.below(3); // value under a NULL slot: 0 keeps the pattern value, 1 zero, 2 arbitrary
     let mut slots = vec![];
@@ -205,8 +206,9 @@ fn gen_case(r: &mut Rng, n: usize) -> Value {
         }
         5 | 6 => {
             let special = r.chance(1, 3);
+            let nonull = r.chance(1, 3);
             let cmp = *r.pick(&["eq", "ne", "lt", "le", "gt", "ge"]);
-            json!({"op":"compare","cmp":cmp,"ty":ty,"a":gen_arr(r, ty, len, special),"b":gen_arr(r, ty, len, special)})
+            json!({"op":"compare","cmp":cmp,"ty":ty,"a":gen_arr2(r, ty, len, special, nonull),"b":gen_arr2(r, ty, len, special, nonull)})
         }
         7 => json!({"op":"add","ty":ty,"a":gen_arr(r, ty, len, false),"b":gen_arr(r, ty, len, false)}),
         8 => json!({"op":"mul","ty":ty,"a":gen_arr(r, ty, len, false),"b":gen_arr(r, ty, len, false)}),
